@@ -175,7 +175,7 @@ func (ex *Executor) execInstr(st *State, fr *Frame, ins ssa.Instruction) bool {
 		elem := x.Type().Underlying().(*types.Slice).Elem()
 		// zero-initialised: element array is a constant array; expressed lazily through a quantifier-free fact on demand
 		srt := sortOf(elem)
-		name := elemName(srt)
+		name := elemNameT(elem)
 		e := st.heapGet(name, arrayOf(arrayOf(srt)))
 		zero := Sym("zeroarr."+string(srt), arrayOf(srt))
 		st.heapSet(name, Store(e, arr, zero))
@@ -528,7 +528,7 @@ func (ex *Executor) convert(st *State, v Val, from, to types.Type) Val {
 		arr := st.newRef("bytes")
 		ln := strLen(v.T)
 		r := ex.mkSlice(st, arr, Num(0), ln, ln, to)
-		name := elemName(SInt)
+		name := "E.Int.u8"
 		e := st.heapGet(name, SAAII)
 		st.heapSet(name, Store(e, arr, App("str2bytes", SAII, v.T)))
 		return r
@@ -547,7 +547,7 @@ func (ex *Executor) convert(st *State, v Val, from, to types.Type) Val {
 
 // the content array of a slice as a term (for uninterpreted conversions)
 func (ex *Executor) sliceContent(st *State, id *Term) *Term {
-	e := st.heapGet(elemName(SInt), SAAII)
+	e := st.heapGet("E.Int.u8", SAAII)
 	return App("slicecontent", SInt, Select(e, ex.sarr(id)), ex.soff(id), ex.slen(id))
 }
 
